@@ -104,6 +104,9 @@ type caseIn struct {
 	// Group > 0: the set was marshalled as one of Group sets whose results were all RETAINED and
 	// only looked at after the last Marshal (replaying it alone marshals just this one)
 	Group int `json:"retained_group,omitempty"`
+	// prog (prog.go): a program over Slots values
+	Slots int     `json:"slots,omitempty"`
+	Steps []jStep `json:"steps,omitempty"`
 	pre   *marshalled
 }
 
@@ -519,6 +522,8 @@ func runCase(ci *caseIn) (term string, observed interface{}, nontrivial bool, si
 		term = fmt.Sprintf("mkNegCase (InBin %s) (ObsBin %s)", l.B(ci.Bin), l.OP(r))
 		observed = map[string]interface{}{"quic": r}
 		nontrivial = len(ci.Bin) >= 5
+	case "prog":
+		term, observed, nontrivial = runProg(ci, l)
 	case "dial":
 		d := ci.Dial
 		dc := transport.DialConfig{CompressConfig: d.Comp.real(), EncodingName: transport.EncodingName(d.Enc),
@@ -1052,6 +1057,19 @@ func main() {
 			add(anomaly, "concurrent-roundtrip-anomaly")
 		}
 	}
+	// 2d. programs over several values of the real types ("reuse" family, prog.go)
+	for _, rd := range readers {
+		for _, lv := range [][2]string{{"3", "0"}, {"0", "9"}} {
+			add(scriptedProg(r.Fork(), rd, lv[0], lv[1]), "prog-scripted-"+rd)
+		}
+	}
+	nprog := 48
+	if thorough {
+		nprog = 1500
+	}
+	for i := 0; i < nprog; i++ {
+		add(genProg(r.Fork()), "prog-random")
+	}
 	// 3. dial configurations
 	for _, dct := range []bool{false, true} {
 		for _, en := range []bool{false, true} {
@@ -1222,7 +1240,7 @@ func main() {
 	} else {
 		gridDesc += " (full product), reconnect and group fields drawn per point"
 	}
-	rule := "grid: " + gridDesc + ", each set through Validate, MarshalKeyValues, both URL carriers (Encode/ParseQuery), quic Marshal/Unmarshal, a harness-permuted framing, CompressConfig on two different bases; retained groups (32-64 sets marshalled by all four writers, every result kept and decoded only after the last Marshal); 8 goroutines x 2000 concurrent marshal/yield/decode round trips judged in the harness (first anomaly becomes a case); in every params case the values the writers returned are overwritten after use; random sets with awkward text (quotes, control, HTML, U+2028, invalid UTF-8) and extreme ints; dial configs; arbitrary key/value maps (all spellings of numbers/booleans/keys in the tables) through the kv and URL readers; URL values with 0/1/2 values, and every known key / unknown keys repeated 2-3 times with identical values (alone, inside a valid set, inside random maps); binary reader on framed maps, 9 mutations, random bytes, every string over {00,01,'a',ff} up to length " + fmt.Sprint(maxLen) + ". non-trivial = params: >=2 pairs emitted or set invalid; kv/url: non-empty; bin: >=5 bytes; distinct = distinct Coq case terms"
+	rule := "grid: " + gridDesc + ", each set through Validate, MarshalKeyValues, both URL carriers (Encode/ParseQuery), quic Marshal/Unmarshal, a harness-permuted framing, CompressConfig on two different bases; retained groups (32-64 sets marshalled by all four writers, every result kept and decoded only after the last Marshal); 8 goroutines x 2000 concurrent marshal/yield/decode round trips judged in the harness (first anomaly becomes a case); in every params case the values the writers returned are overwritten after use; programs over 2-4 values of the real types (8 scripted: validate a type-only set, decode clevel=N into it through each of the four readers, validate and derive the config of fresh type-only sets, look at every value again; 48 random: set / Validate / kv, websocket, webtransport, quic reader into an existing value / CompressConfig), every value re-inspected after every step; random sets with awkward text (quotes, control, HTML, U+2028, invalid UTF-8) and extreme ints; dial configs; arbitrary key/value maps (all spellings of numbers/booleans/keys in the tables) through the kv and URL readers; URL values with 0/1/2 values, and every known key / unknown keys repeated 2-3 times with identical values (alone, inside a valid set, inside random maps); binary reader on framed maps, 9 mutations, random bytes, every string over {00,01,'a',ff} up to length " + fmt.Sprint(maxLen) + ". non-trivial = params: >=2 pairs emitted or set invalid; kv/url: non-empty; bin: >=5 bytes; distinct = distinct Coq case terms"
 	if err := w.Flush(*seed, *tier, rule, true, nil); err != nil {
 		fmt.Fprintln(os.Stderr, err)
 		os.Exit(2)
